@@ -246,6 +246,11 @@ def eval_net(ctx, net, rng):
             if comp is not None:
                 diff = (k + 1, comp)
                 break
+        if diff is not None and diff[1].endswith(".decision") and netkit.decision_near_tie(base["digests"][diff[0] - 1], res["digests"][diff[0] - 1], diff[1]):
+            # the two decisions are (nearly) equally good under the identity run's rewards: a tie broken by rounding-level
+            # differences of estimate-derived rewards; everything downstream legitimately differs. Trivial, not agreement.
+            ctx.count("schedules_trivial_decision_tie")
+            continue
         comp_key = diff[1].split(".")[-1] if diff else ""
         ctx.check(diff is None, f"order-dependence-{comp_key}" + ("-multi-job-sensor" if multi else ""),
                   f"completion order '{desc}' changes step {diff[0] if diff else ''} component '{diff[1] if diff else ''}' relative to submission order ({net['policy']}, {len(net['sensors'])} sensors x {len(net['targets'])} targets)",
